@@ -42,7 +42,7 @@ def plain(rng, lo=1, hi=8, extra=''):
     return ''.join(rng.choice('abcdefgh 01' + extra) for _ in range(rng.randint(lo, hi)))
 
 class Gen:
-    def __init__(self, rng, size=60, depth=8, dtd=None, ns=None):
+    def __init__(self, rng, size=60, depth=7, dtd=None, ns=None):
         self.rng = rng
         self.budget = size
         self.maxdepth = depth
